@@ -1,5 +1,7 @@
 import CsVerif.Model.C17
 import CsVerif.Gen.PyGuard
+import CsVerif.Model.C17Gen
+import CsVerif.Model.PyUShow
 /-! Line-protocol driver for the C17 model.
 
   scan  <payload> <xorkey>   iter_guardrail_configs(BytesIO(payload), xorkey)
@@ -12,6 +14,18 @@ import CsVerif.Gen.PyGuard
 
 A metadata record is rendered as
   `bco gco |mb| |mg| beacon_xor_key guardrail_xor_key checksum payload_xor_key unmasked_config unmasked_guard n (opt type len value)*`.
+
+`g-*` streams — the definitions TRANSLATED from the source of the three generator functions (Gen/PyGuardU.lean), run with the fuel
+of Model/C17Gen.lean; a result is `<records as above, with |mb| and |mg| followed by :<s1>:<s2> (two running sums of the bytes)> <tell>`:
+  gscan  <payload> <xorkey>    the translated iter_guardrail_configs on BytesIO(payload)
+  gcands <data> <bufsize>      the translated find_xor_key_candidates on BytesIO(data)
+  gwb    <payload> <bufsize>   the translated iter_guardrail_configs_with_beacon over the other two translated definitions
+  gsel   <file:V> <records:V> <cands:V>   the translated selection loop with the EXTERNAL functions answering `records` / `cands`
+  garg scan <file:V> <xorkey:V> | garg cands <bufsize:V> <file:V>    the translated definitions on arguments of any kind
+`pyu` stream — the operations of Model/PyU_T17.lean on operands of all kinds (values in the notation of Model/PyUShow.lean):
+  pyu range2 <a> <b> | pyu grouper <it> <n> <fill> | pyu bytes <x> | pyu cks <x> | pyu newreader <x>
+  pyu counter <keys:L[…]> <n>          Counter().update(keys) item by item, then most_common(n): `<counter> <result>`
+  pyu reader <data:b…> <op>*           ops on io.BufferedReader(io.BytesIO(data)): `p<n:V>` = peek(n)[:2], `s` = GuardrailSetting(reader)
 -/
 namespace C17
 open Proto
@@ -29,6 +43,162 @@ def showMeta (m : Meta) : String :=
 
 def showMetas (ms : List Meta) : String :=
   " | ".intercalate (toString ms.length :: ms.map showMeta)
+
+/-! ### `g-*` / `pyu` streams: the translated definitions and the operations of Model/PyU_T17.lean -/
+
+/-- two running sums of a byte string (what the `g-*` streams print for the two masked areas instead of their content) -/
+def sums (b : Bytes) : String :=
+  let r := b.foldl (fun (p : Nat × Nat) x => ((p.1 + x.toNat) % 65521, (p.2 + p.1 + x.toNat) % 65521)) (0, 0)
+  s!"{b.length}:{r.1}:{r.2}"
+
+def vOptBytes? : PyU.V → Option (Option Bytes)
+  | .none => some none
+  | .bytes b => some (some b)
+  | _ => none
+
+def vSetting? : PyU.V → Option Setting
+  | .inst c [.enum c1 o, .enum c2 t, .int l, .bytes v] =>
+    if c == Gen.PyGuardU.GuardrailSettingCls ∧ c1 == Gen.PyGuardU.GuardOption ∧ c2 == Gen.PyGuardU.SettingsType ∧ 0 ≤ o ∧ 0 ≤ t ∧ 0 ≤ l then
+      some { option := o.toNat, type := t.toNat, length := l.toNat, value := v }
+    else none
+  | _ => none
+
+/-- a metadata record of the expected shape, in the format of `showMeta` (lengths of the masked areas followed by their sums) -/
+def vMeta? : PyU.V → Option String
+  | .inst c [.int bco, .int gco, .bytes mb, .bytes mg, .bytes bk, .bytes gk, .bytes ug, .int ck, pk, ub, .list st] =>
+    match vOptBytes? pk, vOptBytes? ub, st.mapM vSetting? with
+    | some pk, some ub, some st =>
+      if c == Gen.PyGuardU.GuardrailMetadata then
+        let head := s!"{bco} {gco} {sums mb} {sums mg} {showBytes bk} {showBytes gk} {ck} {showOptBytes pk} {showOptBytes ub} {showBytes ug} {st.length}"
+        some (" ".intercalate (head :: st.map showSetting))
+      else none
+    | _, _, _ => none
+  | _ => none
+
+def vTell? (v : PyU.V) : Option Nat := (PyU.asFile v).map (·.2.1)
+
+/-- `(list of records, file)`: the records as above (any other shape: the generic notation), then the position of the file -/
+def vMetas (v : PyU.V) : String :=
+  match v with
+  | .tuple [.list ms, f] =>
+    match vTell? f with
+    | some t =>
+      match ms.mapM vMeta? with
+      | some shown => " | ".intercalate (toString ms.length :: shown) ++ s!" @{t}"
+      | none => PyU.vShow (.list ms) ++ s!" @{t}"
+    | none => "?file"
+  | _ => "?gen"
+
+def vCands (v : PyU.V) : String :=
+  match v with
+  | .tuple [.list ks, f] =>
+    match vTell? f, ks.mapM (fun k => match k with | .bytes b => some b | _ => none) with
+    | some t, some bs => " ".intercalate (toString bs.length :: bs.map showBytes) ++ s!" @{t}"
+    | some t, none => PyU.vShow (.list ks) ++ s!" @{t}"
+    | none, _ => "?file"
+  | _ => "?gen"
+
+def enumOf (cid : Nat) : Option PyU.EnumCls :=
+  if cid == 30 then some Gen.PyGuardU.GuardOption else if cid == 31 then some Gen.PyGuardU.SettingsType else none
+
+def clsOf (cid : Nat) : Option PyU.Cls :=
+  if cid == 9000 then some PyU.FileCls
+  else if cid == 32 then some Gen.PyGuardU.GuardrailSettingCls
+  else if cid == 33 then some Gen.PyGuardU.GuardrailMetadata
+  else none
+
+def vTok (s : String) : Option PyU.V := PyU.vTok enumOf clsOf s
+
+/-- fuel for a run on arguments of any kind -/
+def fuelOfV (f : PyU.V) : Nat :=
+  match PyU.asFile f with
+  | some (d, _, _) => d.length + C17Gen.settingsFuel + 2
+  | none => C17Gen.settingsFuel + 2
+
+/-- `Counter().update(keys)`, item by item -/
+def counterOf : List PyU.V → PyU.V → Py PyU.V
+  | [], c => .ok c
+  | k :: ks, c =>
+    match PyU.counterIncr c k with
+    | .ok c' => counterOf ks c'
+    | .error e => .error e
+
+/-- the operations of the `pyu reader` line; stops at the first exception (the state of the reader is not modelled after it) -/
+def readerOps : List String → PyU.V → List String → String
+  | [], _, acc => "ok " ++ " ".intercalate acc.reverse
+  | op :: ops, r, acc =>
+    if op == "s" then
+      match PyU.structRead Gen.PyGuardU.GuardrailSetting r with
+      | .ok (v, r') => readerOps ops r' (PyU.vShow v :: acc)
+      | .error e => " ".intercalate (acc.reverse ++ [showPy (fun (_ : Unit) => "") (.error e)])
+    else
+      match vTok (String.ofList (op.toList.drop 1)) with
+      | none => "bad-op"
+      | some n =>
+        match (do let p ← PyU.peek r n; PyU.slice p .none (.int 2) : Py PyU.V) with
+        | .ok v => readerOps ops r (PyU.vShow v :: acc)
+        | .error e => " ".intercalate (acc.reverse ++ [showPy (fun (_ : Unit) => "") (.error e)])
+
+def gstep : List String → String
+  | ["gscan", p, k] =>
+    match bytesTok p, bytesTok k with
+    | some p, some k => showPy vMetas (C17Gen.iterGuardrailConfigsG (PyFile.ofBytes p) k)
+    | _, _ => "bad-op"
+  | ["gcands", d, n] =>
+    match bytesTok d, natTok n with
+    | some d, some n => showPy vCands (C17Gen.findXorKeyCandidatesG n (PyFile.ofBytes d))
+    | _, _ => "bad-op"
+  | ["gwb", p, n] =>
+    match bytesTok p, natTok n with
+    | some p, some n => showPy vMetas (C17Gen.iterGuardrailConfigsWithBeaconG n (PyFile.ofBytes p))
+    | _, _ => "bad-op"
+  | ["gsel", f, rs, cs] =>
+    match vTok f, vTok rs, vTok cs with
+    | some f, some rs, some cs =>
+      showPy vMetas (Gen.PyGuardU.iter_guardrail_configs_with_beacon (fun fh => .ok (.tuple [rs, fh])) (fun _ => .ok cs) f)
+    | _, _, _ => "bad-op"
+  | ["garg", "scan", f, k] =>
+    match vTok f, vTok k with
+    | some f, some k => showPy vMetas (Gen.PyGuardU.iter_guardrail_configs (fuelOfV f) f k)
+    | _, _ => "bad-op"
+  | ["garg", "cands", b, f] =>
+    match vTok b, vTok f with
+    | some b, some f => showPy vCands (Gen.PyGuardU.find_xor_key_candidates b (fuelOfV f) f)
+    | _, _ => "bad-op"
+  | ["pyu", "range2", a, b] =>
+    match vTok a, vTok b with
+    | some a, some b => showPy PyU.vShow (PyU.range2V a b)
+    | _, _ => "bad-op"
+  | ["pyu", "grouper", it, n, fill] =>
+    match vTok it, vTok n, vTok fill with
+    | some it, some n, some fill => showPy PyU.vShow (PyU.grouper it n fill)
+    | _, _, _ => "bad-op"
+  | ["pyu", "bytes", x] =>
+    match vTok x with
+    | some x => showPy PyU.vShow (PyU.bytesOf17 x)
+    | none => "bad-op"
+  | ["pyu", "cks", x] =>
+    match vTok x with
+    | some x => showPy PyU.vShow (Gen.PyGuardU.payload_checksum x)
+    | none => "bad-op"
+  | ["pyu", "newreader", x] =>
+    match vTok x with
+    | some x => showPy (fun _ => "reader") (PyU.newBufReader x)
+    | none => "bad-op"
+  | ["pyu", "counter", ks, n] =>
+    match vTok ks, vTok n with
+    | some (.list ks), some n =>
+      showPy (fun (p : PyU.V × PyU.V) => PyU.vShow p.1 ++ " " ++ PyU.vShow p.2)
+        (do let c ← counterOf ks (.dict [] []); let r ← PyU.mostCommon c n; pure (c, r))
+    | _, _ => "bad-op"
+  | "pyu" :: "reader" :: d :: ops =>
+    match vTok d with
+    | some (.bytes d) =>
+      match (do let b ← PyU.newBytesIO (.bytes d); PyU.newBufReader b : Py PyU.V) with
+      | .ok r => readerOps ops r []
+      | .error e => showPy (fun (_ : Unit) => "") (.error e)
+    | _ => "bad-op"
+  | _ => "bad-op"
 
 def step : List String → String
   | ["scan", p, k] =>
@@ -65,10 +235,10 @@ def step : List String → String
     match bytesTok d with
     | some d => toString (payloadChecksum d)
     | none => "bad-op"
-  | ["gcks", d] =>     -- the definition translated from the source text (Gen/PyGuard.lean)
+  | ["gcks", d] =>     -- the definition translated from the source text (Gen/PyGuard.lean), as generated (see Model/C17Fast.lean)
     match bytesTok d with
-    | some d => showPy toString (Gen.PyGuard.payload_checksum d)
+    | some d => showPy toString (C17Gen.payloadChecksumT d)
     | none => "bad-op"
-  | _ => "bad-op"
+  | ws => gstep ws
 
 end C17
